@@ -62,7 +62,50 @@ pub fn run(a: &Args) -> Report {
     let thorough = a.thorough();
     let prop = a.prop();
     let cfg = a.run_cfg(if thorough { 3_000_000 } else { 100_000 });
-    run_parallel(&cfg, |i, rep| {
+    let mut fixed = Report::default();
+    if prop == "C01" && cfg.first_case == 0 {
+        // a registry whose type table crosses 16384 entries, through every producer
+        use scale::{Decode, Encode};
+        let n = 16_400usize;
+        let mut rng = Rng::derive(seed ^ 0xb17, 1);
+        let ids = reggen::IdGen { mode: Mode::WellFormed, shape: reggen::Shape::Sparse, n };
+        let small = Cfg::small(Mode::WellFormed);
+        let big = PortableRegistry { types: (0..n).map(|k| scale_info::PortableType::new(k as u32, reggen::gen_type(&mut rng, &small, &ids, k, Some(if k % 40 == 0 { 4 } else { 5 })))).collect() };
+        let case = || json!({"fixed_large_registry_entries": n});
+        match guard(|| PortableRegistry::decode(&mut &big.encode()[..])) {
+            Ok(Ok(d)) => match wf::check(&d, true) {
+                Ok(_) if d.types.len() == n => fixed.count("large_registry_decoded", 1),
+                Ok(_) => fixed.violation("C01/decoded-not-well-formed", format!("a registry of {} entries decodes to {} entries", n, d.types.len()), case()),
+                Err(e) => fixed.violation("C01/decoded-not-well-formed", e, case()),
+            },
+            other => fixed.violation("C01/decode-own-output-fails", format!("{:?}", other.map(|x| x.map(|_| ()).map_err(|e| e.to_string()))), case()),
+        }
+        match guard(|| serde_json::from_str::<PortableRegistry>(&serde_json::to_string(&big).unwrap())) {
+            Ok(Ok(d)) => match wf::check(&d, true) {
+                Ok(_) if d.types.len() == n => fixed.count("large_registry_json", 1),
+                _ => fixed.violation("C01/json-decoded-not-well-formed", format!("a registry of {} entries comes back from JSON with {} entries or ill-formed", n, d.types.len()), case()),
+            },
+            other => fixed.violation("C01/decode-own-output-fails", format!("json: {:?}", other.map(|x| x.map(|_| ()).map_err(|e| e.to_string()))), case()),
+        }
+        let mut r2 = big.clone();
+        match guard(|| r2.retain(|id| id % 3 == 0 || id > 16_380)) {
+            Ok(_) => match wf::check(&r2, true) {
+                Ok(_) => fixed.count("large_registry_retained", 1),
+                Err(e) => fixed.violation("C01/retained-not-closed", e, case()),
+            },
+            Err(p) => fixed.violation("C01/panic", p, case()),
+        }
+        let mut b = scale_info::PortableRegistryBuilder::new();
+        for t in &big.types {
+            b.register_type(t.ty.clone());
+        }
+        match wf::check(&b.finish(), false) {
+            Ok(_) => fixed.count("large_registry_built", 1),
+            Err(e) => fixed.violation("C01/builder-not-dense", e, case()),
+        }
+        fixed.eval(Some(hash_bytes(&refcodec::encode(&big))));
+    }
+    let mut body = run_parallel(&cfg, |i, rep| {
         let mut rng = Rng::derive(seed ^ 0x10, i);
         let before = gen_wf(&mut rng, thorough);
         if let Err(e) = wf::check(&before, true) {
@@ -97,12 +140,23 @@ pub fn run(a: &Args) -> Report {
 
         let mut after = before.clone();
         let mut asked: Vec<u32> = Vec::new();
+        // one case in five uses a *stateful* predicate that answers `true` for an accepted id only the first time it is asked
+        // (FnMut filters are allowed): what it accepted is what it answered `true` to
+        let stateful = i % 5 == 4;
+        let mut budget = acc.clone();
         let res = guard(|| {
             after.retain(|id| {
                 asked.push(id);
-                acc.contains(&id)
+                if stateful {
+                    budget.remove(&id)
+                } else {
+                    acc.contains(&id)
+                }
             })
         });
+        if stateful {
+            rep.count("stateful_filters", 1);
+        }
         let map = match res {
             Ok(m) => m,
             Err(p) => {
@@ -152,5 +206,7 @@ pub fn run(a: &Args) -> Report {
                 Err(p) => rep.violation("C10/panic", format!("retain(all) on a retain result panicked: {}", p), case()),
             }
         }
-    })
+    });
+    body.merge(fixed);
+    body
 }
